@@ -195,6 +195,12 @@ def stepPkt (st : St) (ws : List String) : St × String :=
     match i.toNat?, parseBeh (toks.length + 1) toks with
     | some i, some (b, []) => ({ st with scripts := upsert i b st.scripts }, "ok")
     | _, _ => (st, "bad-op")
+  | ["pkt", "buf", k, hex, _tail] =>   -- the tail only fills the spare capacity behind the input (not part of the packet)
+    match k.toNat?, bytesOfHex hex with
+    | some k, some bs =>
+      let (h', b) := st.heap.alloc bs
+      ({ st with heap := h', cbufs := upsert k b st.cbufs }, "ok")
+    | _, _ => (st, "bad-op")
   | ["pkt", "buf", k, hex] =>
     match k.toNat?, bytesOfHex hex with
     | some k, some bs =>
